@@ -20,6 +20,7 @@ type TypeInfo struct {
 	inputTypeStack  []Input
 	fieldDefStack   []*FieldDefinition
 	directive       *Directive
+	inDirective     bool
 	argument        *Argument
 	getFieldDef     fieldDefFn
 }
@@ -109,6 +110,7 @@ func (ti *TypeInfo) Enter(node ast.Node) {
 			nameVal = node.Name.Value
 		}
 		ti.directive = schema.Directive(nameVal)
+		ti.inDirective = true
 	case *ast.OperationDefinition:
 		if node.Operation == ast.OperationTypeQuery {
 			ttype = schema.QueryType()
@@ -158,7 +160,8 @@ func (ti *TypeInfo) Enter(node ast.Node) {
 					argDef = arg
 				}
 			}
-		} else if fieldDef != nil {
+		} else if !ti.inDirective && fieldDef != nil {
+			// arguments of an unknown directive are not arguments of the enclosing field
 			for _, arg := range fieldDef.Args {
 				if arg.Name() == nameVal {
 					argDef = arg
@@ -212,6 +215,7 @@ func (ti *TypeInfo) Leave(node ast.Node) {
 		}
 	case kinds.Directive:
 		ti.directive = nil
+		ti.inDirective = false
 	case kinds.OperationDefinition, kinds.InlineFragment, kinds.FragmentDefinition:
 		// pop ti.typeStack
 		if len(ti.typeStack) > 0 {
